@@ -370,13 +370,56 @@ def c10_plan(driver, w, snap, ev, res):
     out = {'devs': [], 'ctx': {}, 'stats': {}}
     if not E.is_job(ev) or ev[0] in ('create_branch', 'delete_branch'):
         return out
-    out['devs'] = [['repeat', 3]]
+    out['devs'] = [['repeat', 3], ['pollute']]
     out['ctx'] = {'pre_pending': res['pre']['pending'],
-                  'cev': concretize(ev, res['pre'])}
+                  'cev': concretize(ev, res['pre']),
+                  'post_key': res['key'],
+                  'status': res['obs'].get('status')}
+    return out
+
+
+POLLUTION = [
+    '@robot bypass_author_approval bypass_peer_approval '
+    'bypass_leader_approval bypass_build_status bypass_jira_check '
+    'bypass_incompatible_branch',
+    '@robot after_pull_request=1 after_pull_request=2 create_pull_requests '
+    'create_integration_branches no_octopus unanimity approve',
+]
+
+
+def c10_pollute(driver, w, snap, ev, ctx):
+    """The same evaluation, on the same state, after the long-lived instance
+    processed a job of an unrelated pull request that switches every option
+    on: the outcome must not change."""
+    from .world import ADMIN
+    out = {'violations': [], 'stats': {'c10_pollution_runs': 1}}
+    w.restore(snap)
+    w.set_pending([])
+    dev = sorted(b for b in w.heads() if b.startswith('development/'))[0]
+    E.apply(w, ['open', 'bugfix/POLLUTE-9', dev])
+    pid = max(p.id for p in w.pr_items())
+    E.apply(w, ['comment', pid, ADMIN, POLLUTION[0]])
+    E.apply(w, ['comment', pid, AUTHOR, POLLUTION[1]])
+    o0 = E.apply(w, ['eval_pr', pid])
+    out['stats']['c10_pollution_' + str(o0.get('status'))] = 1
+    w.restore(snap)
+    w.set_pending(ctx['pre_pending'])
+    o = E.apply(w, ctx['cev'])
+    key = w.key()
+    if key != ctx['post_key'] or o.get('status') != ctx['status']:
+        out['violations'].append({
+            'property': 'C10', 'fingerprint': 'depends-on-earlier-jobs',
+            'msg': 'the outcome of %s depends on what the instance processed '
+                   'before: after a job on an unrelated pull request with '
+                   'options %s it ends %s (state %s), otherwise %s (state '
+                   '%s)' % (ctx['cev'], POLLUTION, o.get('status'), key,
+                            ctx['status'], ctx['post_key'])})
     return out
 
 
 def c10_run(driver, w, snap, ev, dev, ctx):
+    if dev[0] == 'pollute':
+        return c10_pollute(driver, w, snap, ev, ctx)
     out = {'violations': [], 'stats': {'c10_repeats': 1}}
     w.restore(snap)
     w.set_pending(ctx['pre_pending'])
@@ -558,7 +601,16 @@ def c16_run(driver, w, snap, ev, dev, ctx):
     except Exception as e:
         out['stats']['c16_status_page_error'] = 1
         channels['status page'] = ''
+    from urllib.parse import unquote, unquote_plus
     for name, text in channels.items():
+        # also any other percent-encoding of the password
+        decoded = {'': text, ' (percent-decoded)': unquote(text),
+                   ' (plus-decoded)': unquote_plus(text)}
+        for how, body in decoded.items():
+            if how and w.password in body and not any(
+                    s in text for s in sentinels(w)):
+                text = body
+                break
         for s in sentinels(w):
             if s in text:
                 at = text.index(s)
